@@ -110,6 +110,14 @@ def _dt_to_timestamp(dt: datetime | date) -> int:
     return int(dt_full.timestamp())
 
 
+def _phase_base(freq: str) -> datetime:
+    """Date a time-of-day pattern is phase-aligned to (RecurringPattern._get_safe_anchor).
+
+    Weekly patterns are aligned to the Monday before the epoch, all others to the epoch.
+    """
+    return datetime(1969, 12, 29) if freq == "weekly" else datetime(1970, 1, 1)
+
+
 def _parse_vevent(
     component: Event, tz_provider: Any = None, calendar_name: str | None = None
 ) -> Interval | RecurringPattern[ICalEvent]:
@@ -278,13 +286,29 @@ def _parse_vevent(
                 # convention as start
                 exdates.append(_dt_to_timestamp(value.dt))
 
+    # A DTSTART on the date time-of-day patterns are aligned to is a time-of-day
+    # pattern (same occurrences, and how such patterns are written); any other
+    # DTSTART is an anchor (passed as a datetime: an int start is an anchor only
+    # when > 86400)
+    pattern_start: datetime | int
+    if isinstance(start_dt, datetime):
+        pattern_start = start_dt
+    else:
+        pattern_start = datetime.combine(start_dt, datetime.min.time())
+    if pattern_start.date() == _phase_base(freq).date():
+        pattern_start = (
+            pattern_start.hour * 3600
+            + pattern_start.minute * 60
+            + pattern_start.second
+        )
+
     return RecurringPattern(
         freq=cast(Any, freq),
         interval=interval,
         day=byday,
         day_of_month=day_of_month,
         month=month,
-        start=start_ts,  # Use timestamp to preserve anchor
+        start=pattern_start,
         duration=duration_seconds,
         tz=tz,
         interval_class=ICalEvent,
@@ -312,9 +336,15 @@ def _interval_to_vevent(item: Interval | RecurringPattern[Any]) -> Event:
         rp = cast(RecurringPattern[ICalEvent], item)
         meta = rp.metadata
 
-        # Start
-        anchor = rp.anchor_timestamp if rp.anchor_timestamp else rp.start_seconds
-        dtstart = datetime.fromtimestamp(anchor, tz=rp.zone or timezone.utc)
+        # Start: the anchor, or for a time-of-day pattern that time of day on the
+        # date its phase is aligned to, in the pattern's own zone
+        zone = rp.zone or timezone.utc
+        if rp.anchor_timestamp is not None:
+            dtstart = datetime.fromtimestamp(rp.anchor_timestamp, tz=zone)
+        else:
+            dtstart = _phase_base(rp.freq).replace(tzinfo=zone) + timedelta(
+                seconds=rp.start_seconds
+            )
 
         event.add("dtstart", dtstart)
         event.add("duration", timedelta(seconds=rp.duration_seconds))
